@@ -13,7 +13,8 @@
 //!    liquid-type flag matching `MclqChunk::liquid_type`, `n_doodad_refs + n_map_obj_refs` =
 //!    number of MCRF references; flag 0x200 (high-res holes, MoP 5.3+) is never set
 //!  * MCLQ: 81 vertices, finite heights with |h| ≤ 10000 and min ≤ max (`has_valid_heights`)
-//!  * MH2O: 256 entries; instance rectangle inside the 8×8 grid; vertex array variant = LVF and
+//!  * MH2O: 256 entries (any number of them, none included, with liquid — `Mh2oChunk::new()` is the
+//!    crate's own constructor for the table without liquid); instance rectangle inside the 8×8 grid; vertex array variant = LVF and
 //!    populated exactly on the instance's (w+1)×(h+1) vertices; exists bitmap uses w·h bits
 use crate::case::Case;
 use crate::content::{self, Content};
@@ -350,7 +351,7 @@ fn mk_mcnk(case: &Case, idx: usize, s: &crate::case::ChunkShape, n_tex: u32) -> 
 }
 
 fn mk_water(case: &Case, r: &mut Sm) -> Option<Mh2oChunk> {
-    if case.water.is_empty() {
+    if case.water.is_empty() && !case.water_table {
         return None;
     }
     let fc = case.float_class;
